@@ -396,10 +396,12 @@ impl CanonicalBlock {
         None
     }
     pub fn hop_count_increase(&mut self) -> bool {
-        if let Some((hc_limit, mut hc_count)) = self.hop_count_get() {
-            hc_count += 1;
-            self.set_data(CanonicalData::HopCount(hc_limit, hc_count));
-            return true;
+        if let Some((hc_limit, hc_count)) = self.hop_count_get() {
+            // a hop count of 255 cannot be increased any further
+            if let Some(hc_count) = hc_count.checked_add(1) {
+                self.set_data(CanonicalData::HopCount(hc_limit, hc_count));
+                return true;
+            }
         }
         false
     }
